@@ -282,12 +282,142 @@ Definition rows_ok (regs : list regcall) (rows : list row) : bool :=
 Fixpoint meta_get (k : bytes) (m : list (bytes * bytes)) : bytes :=
   match m with [] => [] | (k', v) :: t => if beqb k k' then v else meta_get k t end.
 
+(* ======================================================================== *)
+(* Histories on ONE server: registrations and setters interleaved with describe
+   requests, Server.ProtocolHash() calls and dispatched calls.
+   server.go: ProtocolHash() computes the digest once (sync.Once) and keeps it;
+   server_serve.go / http_*.go: every dispatched call to a REGISTERED method
+   calls ProtocolHash() while building DispatchInfo; buildDescribeBatch hashes
+   the live surface on every __describe__ and never reads that cache.          *)
+Inductive op :=
+| OReg (c : regcall)
+| OSetService (s : bytes)
+| OSetServerID (s : bytes)
+| OSetPV (v : bytes)          (* SetProtocolVersion; [] opts out *)
+| ODescPipe
+| ODescHTTP
+| OHash                       (* Server.ProtocolHash() *)
+| OCall (name : bytes).       (* a request for method [name] over the pipe *)
+
+Definition is_mutator (o : op) : bool :=
+  match o with OReg _ | OSetService _ | OSetServerID _ | OSetPV _ => true | _ => false end.
+Definition is_describe (o : op) : bool :=
+  match o with ODescPipe | ODescHTTP => true | _ => false end.
+
+(* the surface: configuration and registrations made so far, in order *)
+Definition surface := (cfg * list regcall)%type.
+Definition surface0 : surface := (Build_cfg [] [] [], []).
+Definition apply_mut (s : surface) (o : op) : surface :=
+  let (g, regs) := s in
+  match o with
+  | OReg c => (g, regs ++ [c])
+  | OSetService v => (Build_cfg v (g_server_id g) (g_pv g), regs)
+  | OSetServerID v => (Build_cfg (g_service g) v (g_pv g), regs)
+  | OSetPV v => (Build_cfg (g_service g) (g_server_id g) v, regs)
+  | _ => s
+  end.
+Definition surface_after (s : surface) (ops : list op) : surface := fold_left apply_mut ops s.
+
+Record hstate := {
+  h_surface : surface;
+  h_once : option bytes }.    (* payload whose digest protocolHashOnce holds; None = not yet run *)
+Definition h_init : hstate := {| h_surface := surface0; h_once := None |}.
+
+Definition payload_of (s : surface) : option bytes :=
+  match describe_ents (snd s) with
+  | Some e => Some (hash_payload (protocol_name (fst s)) e) | None => None end.
+
+(* Server.ProtocolHash() *)
+Definition h_touch (st : hstate) : hstate :=
+  match h_once st with
+  | Some _ => st
+  | None => {| h_surface := h_surface st; h_once := payload_of (h_surface st) |}
+  end.
+
+(* what one op lets the outside see *)
+Inductive oobs :=
+| BNone
+| BDesc (status : Z)
+        (r : option resp)         (* the response served *)
+        (fresh : option resp)     (* describe of a brand-new server given only the mutators so far *)
+        (payload : option bytes)  (* byte string the harness hashed *)
+        (hash_ok frame_ok decode_ok : bool)
+| BHash (preimage : option bytes). (* payload whose SHA-256 ProtocolHash() returned *)
+
+Definition desc_obs (H : bytes -> bytes) (s : surface) (status : Z) (r : option resp) : oobs :=
+  BDesc status r (build_describe H (fst s) (snd s)) (payload_of s) true true true.
+
+Definition hstep (H : bytes -> bytes) (st : hstate) (o : op) : hstate * oobs :=
+  let s := h_surface st in
+  match o with
+  | ODescPipe => (st, desc_obs H s 200 (pipe_describe H (fst s) (snd s)))
+  | ODescHTTP => (st, desc_obs H s (fst (http_describe H (fst s) (snd s))) (snd (http_describe H (fst s) (snd s))))
+  | OHash => let st' := h_touch st in (st', BHash (h_once st'))
+  | OCall n =>
+      (* serveOne answers the two framework methods before the method lookup,
+         even when a user method was registered under such a name *)
+      (if beqb n (str "__describe__") || beqb n (str "__transport_options__") then st
+       else match last_reg n (snd s) with Some _ => h_touch st | None => st end, BNone)
+  | _ => ({| h_surface := apply_mut s o; h_once := h_once st |}, BNone)
+  end.
+
+Fixpoint hist_run (H : bytes -> bytes) (st : hstate) (ops : list op) : list oobs :=
+  match ops with
+  | [] => []
+  | o :: t => let (st', b) := hstep H st o in b :: hist_run H st' t
+  end.
+
+(* The seeded-defect shape, kept for the refutation witness only: describe
+   shares ONE memo with ProtocolHash() and stamps the memoized digest. *)
+Definition memo_resp (H : bytes -> bytes) (memo : option bytes) (r : option resp) : option resp :=
+  match memo, r with
+  | Some pl, Some p =>
+      Some {| r_rows := r_rows p;
+              r_meta := map (fun kv => if beqb (fst kv) c09_k_protocol_hash then (fst kv, H pl) else kv) (r_meta p) |}
+  | _, _ => r
+  end.
+Definition hstep_memo (H : bytes -> bytes) (st : hstate) (o : op) : hstate * oobs :=
+  if is_describe o then
+    let st' := h_touch st in
+    let s := h_surface st in
+    (st', BDesc 200 (memo_resp H (h_once st') (build_describe H (fst s) (snd s)))
+                (build_describe H (fst s) (snd s)) (payload_of s)
+                (opt_eqb beqb (h_once st') (payload_of s)) true true)
+  else hstep H st o.
+Fixpoint hist_run_memo (H : bytes -> bytes) (st : hstate) (ops : list op) : list oobs :=
+  match ops with
+  | [] => []
+  | o :: t => let (st', b) := hstep_memo H st o in b :: hist_run_memo H st' t
+  end.
+
+(* one describe observation against the surface in force when it was served *)
+Definition desc_ok (regs : list regcall) (b : oobs) : bool :=
+  match b with
+  | BDesc status (Some p) fresh payload hash_ok frame_ok decode_ok =>
+      rows_ok regs (r_rows p) && hash_ok && frame_ok && decode_ok
+      && opt_eqb beqb payload (Some (ref_payload (meta_get c09_k_protocol_name (r_meta p)) (r_rows p)))
+      && Z.eqb status 200
+      && opt_eqb resp_eqb fresh (Some p)       (* digest included: = a fresh server with this surface *)
+  | _ => false
+  end.
+
+(* every describe in the history meets the same spec; the surface is tracked
+   from the INPUT ops alone *)
+Fixpoint hist_ok (s : surface) (ops : list op) (obs : list oobs) : bool :=
+  match ops, obs with
+  | [], [] => true
+  | o :: ops', b :: obs' =>
+      (if is_describe o then desc_ok (snd s) b else true) && hist_ok (apply_mut s o) ops' obs'
+  | _, _ => false
+  end.
+
 (* ---- correspondence interface -------------------------------------------- *)
 Record input := {
   i_cfg : cfg;
   i_regs : list regcall;      (* first server, registration order *)
   i_regs2 : list regcall;     (* second server, same cfg *)
-  i_sub : bool }.             (* also served from a fresh OS process *)
+  i_sub : bool;               (* also served from a fresh OS process *)
+  i_hist : list op }.         (* a history run on one further server, starting from NewServer() *)
 
 Record obs := {
   o_pipe : option resp;            (* Server.Serve on buffers *)
@@ -299,7 +429,8 @@ Record obs := {
   o_hash_ok : bool;                (* lower-hex SHA-256(o_payload) = reported protocol_hash *)
   o_frame_ok : bool;               (* stream schema is the 8-column describe schema, one batch, nothing trailing *)
   o_decode_ok : bool;              (* every schema cell decodes to a schema Equal to the registered one *)
-  o_accessor_ok : bool }.          (* Server.ProtocolHash() = reported protocol_hash *)
+  o_accessor_ok : bool;            (* Server.ProtocolHash() = reported protocol_hash *)
+  o_hist : list oobs }.            (* one entry per op of i_hist *)
 
 Definition model_with (H : bytes -> bytes) (i : input) : obs :=
   let p := pipe_describe H (i_cfg i) (i_regs i) in
@@ -310,7 +441,8 @@ Definition model_with (H : bytes -> bytes) (i : input) : obs :=
      o_sub := if i_sub i then Some p else None;
      o_payload := match describe_ents (i_regs i) with
                   | Some e => Some (hash_payload (protocol_name (i_cfg i)) e) | None => None end;
-     o_hash_ok := true; o_frame_ok := true; o_decode_ok := true; o_accessor_ok := true |}.
+     o_hash_ok := true; o_frame_ok := true; o_decode_ok := true; o_accessor_ok := true;
+     o_hist := hist_run H h_init (i_hist i) |}.
 
 (* the executable model cannot compute SHA-256: the digest value is masked when
    model and implementation are compared (its preimage o_payload is compared
@@ -323,16 +455,27 @@ Definition mask_resp (r : resp) : resp :=
 Definition oresp_eqb (a b : option resp) : bool :=
   opt_eqb resp_eqb (option_map mask_resp a) (option_map mask_resp b).
 
+Definition oobs_eqb (a b : oobs) : bool :=
+  match a, b with
+  | BNone, BNone => true
+  | BDesc s r f p h1 h2 h3, BDesc s' r' f' p' h1' h2' h3' =>
+      Z.eqb s s' && oresp_eqb r r' && oresp_eqb f f' && opt_eqb beqb p p'
+      && Bool.eqb h1 h1' && Bool.eqb h2 h2' && Bool.eqb h3 h3'
+  | BHash p, BHash p' => opt_eqb beqb p p'
+  | _, _ => false
+  end.
+
 Definition obs_eqb (a b : obs) : bool :=
   oresp_eqb (o_pipe a) (o_pipe b) && Z.eqb (o_http_status a) (o_http_status b)
   && oresp_eqb (o_http a) (o_http b) && oresp_eqb (o_alt a) (o_alt b)
   && opt_eqb oresp_eqb (o_sub a) (o_sub b)
   && opt_eqb beqb (o_payload a) (o_payload b)
   && Bool.eqb (o_hash_ok a) (o_hash_ok b) && Bool.eqb (o_frame_ok a) (o_frame_ok b)
-  && Bool.eqb (o_decode_ok a) (o_decode_ok b) && Bool.eqb (o_accessor_ok a) (o_accessor_ok b).
+  && Bool.eqb (o_decode_ok a) (o_decode_ok b) && Bool.eqb (o_accessor_ok a) (o_accessor_ok b)
+  && list_eqb oobs_eqb (o_hist a) (o_hist b).
 
 (* the property, decided on one observation (digest values compared unmasked) *)
-Definition spec_ok (i : input) (o : obs) : bool :=
+Definition spec_static (i : input) (o : obs) : bool :=
   match o_pipe o with
   | None => false
   | Some p =>
@@ -344,3 +487,6 @@ Definition spec_ok (i : input) (o : obs) : bool :=
       && (if perm_check (i_regs i) (i_regs2 i) then opt_eqb resp_eqb (o_alt o) (Some p) else true)
       && match o_sub o with None => true | Some s => opt_eqb resp_eqb s (Some p) end
   end.
+
+Definition spec_ok (i : input) (o : obs) : bool :=
+  spec_static i o && hist_ok surface0 (i_hist i) (o_hist o).
